@@ -193,7 +193,7 @@ def kv(lines):
                 d['codec %s %s' % (t[1], t[2])] = ' '.join(t[3:])
             else:
                 d['codec ' + t[1]] = ' '.join(t[2:])
-        elif t[0] in ('offsets', 'installed', 'ssinst', 'vptr0', 'static', 'legacy-offsets'):
+        elif t[0] in ('offsets', 'installed', 'ssinst', 'vptr0', 'static', 'legacy-offsets', 'wide'):
             d[t[0] + ' ' + t[1]] = ' '.join(t[2:])
         elif t[0] in ('update', 'image', 'counts', 'rewalk', 'decoding'):
             d[t[0]] = ' '.join(t[1:])
@@ -255,6 +255,9 @@ def oracle_c12(reg, res):
                      % (mi, a, pr[0], pr[1], inst[0], inst[1]))
         elif pr[0] != ss[:a] or pr[1] != ss[a:]:
             F.append('method %d (arity %d): printed slots %s strides %s, installed slots_strides %s' % (mi, a, pr[0], pr[1], ss))
+        w = o.get('wide %d' % mi)
+        if w is not None and not w.startswith('ok'):
+            F.append('method %d (arity %d): with the installed array holding values wider than 16 bits, write_static_offsets prints other numbers: %s' % (mi, a, w))
     if res['crashed']:
         # the offsets were printed before the crash: the comparison above stands; the crash itself is reported too
         where = 'while resolving calls through the printed static offsets' if 'rewalk' in o or 'codec decoded' in o else 'before the static-offset runs'
